@@ -301,29 +301,18 @@ theorem mem_flushList {C P Q : List Arg} {x : Arg} :
 
 /-! ### `__iadd__` in closed form -/
 
-/-- the arguments of a batch that `__iadd__` accepts: a once-only argument is skipped when it is in
-`seen`; `seen` grows only by accepted *non-prepend* arguments (they go to `post`; the prepend-type
-ones wait in `tmp_pre`, which the membership test does not look at) -/
-def acceptQ (K : Classify) : List Arg → List Arg → List Arg
-  | _, [] => []
-  | seen, a :: as =>
-    if K.dd a = .unique ∧ a ∈ seen then acceptQ K seen as
-    else a :: acceptQ K (if K.pp a = true then seen else a :: seen) as
-
-theorem acceptQ_congr {s1 s2 : List Arg} (b : List Arg) (h : ∀ x, x ∈ s1 ↔ x ∈ s2) :
-    acceptQ K s1 b = acceptQ K s2 b := by
+theorem accept_congr {s1 s2 : List Arg} (b : List Arg) (h : ∀ x, x ∈ s1 ↔ x ∈ s2) :
+    accept K s1 b = accept K s2 b := by
   induction b generalizing s1 s2 with
   | nil => rfl
   | cons a as ih =>
-    simp only [acceptQ, h a]
+    simp only [accept, h a]
     split
     · exact ih h
     · congr 1
       apply ih
       intro x
-      split
-      · exact h x
-      · simp [h x]
+      simp [h x]
 
 theorem extendLeft_eq (d xs : List Arg) : extendLeft d xs = xs.reverse ++ d := by
   unfold extendLeft
@@ -332,32 +321,39 @@ theorem extendLeft_eq (d xs : List Arg) : extendLeft d xs = xs.reverse ++ d := b
   | cons x xs ih => simp [List.foldl_cons, ih]
 
 theorem iaddLoop_eq (cont pre b tmp post seen : List Arg) (noc : Bool)
-    (h : ∀ x, x ∈ seen ↔ x ∈ cont ∨ x ∈ pre ∨ x ∈ post) :
+    (h : ∀ x, x ∈ seen ↔ x ∈ cont ∨ x ∈ pre ∨ x ∈ post ∨ x ∈ tmp) :
     iaddLoop K cont pre b tmp post noc =
-      (((acceptQ K seen b).filter (fun a => K.pp a)).reverse ++ tmp,
-       post ++ (acceptQ K seen b).filter (fun a => !K.pp a),
-       noc || (acceptQ K seen b).any (fun a => decide (K.dd a = .overridden))) := by
+      (((accept K seen b).filter (fun a => K.pp a)).reverse ++ tmp,
+       post ++ (accept K seen b).filter (fun a => !K.pp a),
+       noc || (accept K seen b).any (fun a => decide (K.dd a = .overridden))) := by
   induction b generalizing tmp post seen noc with
-  | nil => simp [iaddLoop, acceptQ]
+  | nil => simp [iaddLoop, accept]
   | cons a as ih =>
-    simp only [iaddLoop, acceptQ, ← h a]
+    simp only [iaddLoop, accept, ← h a]
     split
     · exact ih tmp post seen noc h
     · by_cases hp : K.pp a = true
       · simp only [hp, if_true]
-        rw [ih (a :: tmp) post seen _ h]
+        rw [ih (a :: tmp) post (a :: seen) _ (by
+          intro x
+          simp only [List.mem_cons, h x]
+          constructor
+          · rintro (h1 | h1 | h1 | h1 | h1) <;> simp [h1]
+          · rintro (h1 | h1 | h1 | h1 | h1) <;> simp [h1])]
         simp [List.filter_cons, hp, Bool.or_assoc]
       · simp only [hp, if_false]
         have hp' : K.pp a = false := by simpa using hp
         rw [ih tmp (post ++ [a]) (a :: seen) _ (by
           intro x
           simp only [List.mem_cons, List.mem_append, h x, List.not_mem_nil, or_false]
-          constructor <;> (intro hh; rcases hh with h1 | h1 | h1 | h1 <;> simp [h1]))]
+          constructor
+          · rintro (h1 | h1 | h1 | h1 | h1) <;> simp [h1]
+          · rintro (h1 | h1 | (h1 | h1) | h1) <;> simp [h1])]
         simp [List.filter_cons, hp', Bool.or_assoc]
 
 /-- the accepted arguments of `s += b` -/
 def accepted (K : Classify) (s : State) (b : List Arg) : List Arg :=
-  acceptQ K (s.container ++ s.pre ++ s.post) b
+  accept K (s.container ++ s.pre ++ s.post) b
 
 theorem iadd_eq (s : State) (b : List Arg) :
     iadd K s b =
@@ -449,7 +445,7 @@ theorem flush_iadd_flush (s : State) (b : List Arg) (hi : Inv K s) :
   simp only [iadd_eq]
   have hacc : accepted K ⟨flushList K s.container s.pre s.post, [], [], false⟩ b = accepted K s b := by
     unfold accepted
-    apply acceptQ_congr
+    apply accept_congr
     intro x
     simp only [List.append_nil, mem_flushList, List.mem_append, or_assoc]
   simp only [hacc, List.append_nil, List.nil_append]
